@@ -43,8 +43,11 @@ class Check:
         self.log = []
 
     # ---------------------------------------------------------------- builds
-    def build_harness(self):
-        rc, out = sh(["cargo", "build", "--release", "--offline"], cwd=HARNESS)
+    def build_harness(self, bins=("rkh", "sbx_service")):
+        cmd = ["cargo", "build", "--release", "--offline"]
+        for b in bins:
+            cmd += ["--bin", b]
+        rc, out = sh(cmd, cwd=HARNESS)
         ok = rc == 0
         self.obligations.append(("build:harness-links-current-/repo", ok, "" if ok else out[-1500:]))
         if not ok:
